@@ -10,7 +10,7 @@ names = list(dict.fromkeys(names)) + ["QXmppStanza", "QXmppBitsOfBinaryData", "Q
 headers = {}
 for f in glob.glob(REPO + "/src/base/*.h") + glob.glob(REPO + "/src/client/*.h") + glob.glob(REPO + "/src/base/compat/*.h"):
     headers[f] = open(f).read()
-SCALAR = r"(?:bool|int|unsigned int|unsigned char|unsigned|long|short|double|float|u?int(?:8|16|32|64)_t|std::u?int(?:8|16|32|64)_t|q?u?int(?:8|16|32|64)|quint64|qint64|QString|QByteArray|QDateTime|QStringList|QUrl|QDate|QList<QString>|QVector<QString>)"
+SCALAR = r"(?:bool|int|unsigned int|unsigned char|unsigned|long|short|double|float|u?int(?:8|16|32|64)_t|std::u?int(?:8|16|32|64)_t|q?u?int(?:8|16|32|64)|quint64|qint64|QString|QByteArray|QDateTime|QStringList|QUrl|QDate|QList<QString>|QVector<QString>|QMimeType|QHostAddress|QMap<QString, QString>|QList<int>|QList<QByteArray>)"
 ARG = re.compile(r"^(?:const\s+)?(%s|std::optional<\s*%s\s*>)\s*&?\s*\w*$" % (SCALAR, SCALAR))
 
 
@@ -35,6 +35,93 @@ def class_body(text, name):
         elif depth == 0:
             out.append(ch)
     return "".join(out)
+
+
+# ---- enum-valued setters: FE(Class, setter, getter, enumerator, ...) with every enumerator of the parameter's enum type
+def strip_comments(t):
+    t = re.sub(r"//[^\n]*", "", t)
+    return re.sub(r"/\*.*?\*/", "", t, flags=re.S)
+
+
+def collect_enums():
+    """{qualified enum name: [qualified enumerators]} over all headers (scopes: namespaces, classes, structs)"""
+    enums = {}
+    tok = re.compile(r"\b(namespace|class|struct|enum(?:\s+class)?)\b\s*((?:QXMPP_\w+\s+)?[\w:]*)[^;{()]*?([;{])|([{}])")
+    for f, text in headers.items():
+        text = strip_comments(text)
+        scope = []      # (name or None)
+        i = 0
+        while True:
+            m = tok.search(text, i)
+            if not m:
+                break
+            i = m.end()
+            if m.group(4) == "{":
+                scope.append(None)
+            elif m.group(4) == "}":
+                if scope:
+                    scope.pop()
+            elif m.group(3) == ";":
+                continue
+            else:
+                kind, name = m.group(1), (m.group(2) or "").split()[-1] if m.group(2).strip() else ""
+                if kind.startswith("enum"):
+                    j = text.find("}", i)
+                    body = re.sub(r"(?m)^\s*#.*$", "", text[i:j])
+                    i = j + 1
+                    q = "::".join([s for s in scope if s] + ([name] if name else []))
+                    vals = []
+                    for part in body.split(","):
+                        part = part.strip()
+                        if not part:
+                            continue
+                        en = re.match(r"(\w+)", part)
+                        if en and "deprecated" not in part.lower() and not re.match(r"\w+\s*=\s*[A-Za-z_]", part):
+                            vals.append(en.group(1))
+                    pre = q if "class" in kind else "::".join([s for s in scope if s])
+                    if name:
+                        enums[q] = [(pre + "::" + v) if pre else v for v in vals]
+                else:
+                    scope.append(name or None)
+    return enums
+
+
+def enum_fields():
+    enums = collect_enums()
+    out = []
+    for n in sorted(set(names)):
+        if n in SKIP_CLASSES:
+            continue
+        body = None
+        for f, t in headers.items():
+            body = class_body(t, n)
+            if body:
+                break
+        if not body:
+            continue
+        body = strip_comments(body)
+        setters = re.findall(r"void\s+(set[A-Z]\w*)\(([^()]*)\)\s*;", body)
+        for s, arg in setters:
+            if len([1 for s2, _ in setters if s2 == s]) > 1:
+                continue
+            arg = " ".join(arg.replace("const ", " ").replace("&", " ").replace("enum ", " ").split())
+            m = re.match(r"^(?:std::optional<\s*([\w:]+)\s*>|([\w:]+))(?:\s+\w+)?$", arg)
+            if not m:
+                continue
+            ty = m.group(1) or m.group(2)
+            q = None
+            for cand in (n + "::" + ty, ty, "QXmpp::" + ty):
+                if cand in enums:
+                    q = cand
+                    break
+            if not q or not enums[q]:
+                continue
+            base = s[3:]
+            for g in (base[0].lower() + base[1:], "is" + base):
+                if re.search(r"[\w>&\s]\s%s\(\)\s*const" % re.escape(g), body):
+                    out.append("FE(%s, %s, %s, %s);" % (n, s, g, ", ".join(enums[q])))
+                    break
+    return out
 
 
 lines = []
@@ -67,5 +154,6 @@ for n in sorted(set(names)):
                 lines.append("F(%s, %s, %s);" % (n, s, g))
                 seen.add(s)
                 break
+lines += enum_fields()
 open(os.path.join(V, "harness/fields_gen.h"), "w").write("// generated by tools/gen_fields.py - do not edit\n" + "\n".join(lines) + "\n")
 print(len(lines), "fields")
